@@ -192,8 +192,14 @@ class AstToSqlVisitor(visitor.NodeVisitor):
         if isinstance(node.right, (ast.BoolOp, ast.Compare)):
             right = f"({right})"
 
+        # 'null eq x' means the same as 'x eq null':
+        if isinstance(node.left, ast.Null) and isinstance(
+            node.comparator, (ast.Eq, ast.NotEq)
+        ):
+            left, right = right, left
+
         #  'eq/ne null' should become 'IS (NOT) NULL' instead of '(!)= NULL'
-        if isinstance(node.right, ast.Null):
+        if isinstance(node.right, ast.Null) or isinstance(node.left, ast.Null):
             if isinstance(node.comparator, ast.Eq):
                 comparator = "IS"
             elif isinstance(node.comparator, ast.NotEq):
